@@ -335,7 +335,9 @@ func respProp(p *Pkg, _ *Pkg, payload json.RawMessage, res *Result) {
 				// C10 (i): the client reconstructs what the handler returned
 				rt.inject = nil
 				var out []reflect.Value
-				if pn := Catch(func() { out = meth.Call([]reflect.Value{reflect.ValueOf(context.Background()), reflect.New(op.ParamsT).Elem()}) }); pn != "" {
+				if pn := Catch(func() {
+					out = meth.Call([]reflect.Value{reflect.ValueOf(context.Background()), reflect.New(op.ParamsT).Elem()})
+				}); pn != "" {
 					bad("panic-in-client", c.Name, in, pn, "")
 					continue
 				}
@@ -439,7 +441,9 @@ func respProp(p *Pkg, _ *Pkg, payload json.RawMessage, res *Result) {
 					}
 					in := fmt.Sprintf("%s %s <- status=%d body=%s(%q) headers=%s", ro.Method, ro.Path, status, bodyKind, body, hdrKind)
 					var out []reflect.Value
-					if pn := Catch(func() { out = meth.Call([]reflect.Value{reflect.ValueOf(context.Background()), reflect.New(op.ParamsT).Elem()}) }); pn != "" {
+					if pn := Catch(func() {
+						out = meth.Call([]reflect.Value{reflect.ValueOf(context.Background()), reflect.New(op.ParamsT).Elem()})
+					}); pn != "" {
 						bad("panic-in-client", "injected", in, pn, "no panic")
 						continue
 					}
